@@ -77,6 +77,20 @@ def stepC11 : List String → String
       | some outs => fmtRes (coinbaseCheck cr30 dp35 active h (pow == "1") (ofInt fees) (ofInt reward) (ofInt dposReward) outs)
       | none => "bad-op"
     | _, _, _, _, _, _ => "bad-op"
+  | "blk" :: h :: active :: pow :: crh :: reward :: n :: rest =>
+    match nat? h, nat? active, nat? crh, int? reward, nat? n with
+    | some h, some active, some crh, some reward, some n =>
+      match parseOuts n rest with
+      | some outs =>
+        -- a block holding only its coinbase: no fees, GetBlockDPOSReward = the DPoS share of the subsidy
+        let r := ofInt reward
+        match blockVerdict crh h (coinbaseCheck cr30 dp35 active h (pow == "1") 0 r (dp35 (0 + r)) outs) with
+        | .ok => "ok"
+        | .err _ => "err"
+        | .panic => "panic"
+        | .legacy => "legacy"
+      | none => "bad-op"
+    | _, _, _, _, _ => "bad-op"
   | ["asg", h, active, pow, fees, reward] =>
     match nat? h, nat? active, int? fees, int? reward with
     | some h, some active, some fees, some reward =>
